@@ -310,7 +310,60 @@ def run_case(rec: Recorder, kind: str, size: int, method: str, chunked: bool, hi
             rec.fail(case, "unrewindable-for-rewindable-body", obs, f"UnrewindableBodyError for body kind {kind}")
 
 
+def run_tls_uploads(ctx: Ctx, rec: Recorder) -> None:
+    """Large request bodies over real TLS: directly, through a CONNECT tunnel, and through TLS-in-TLS (https proxy, the
+    only route that uses urllib3's own SSLTransport.sendall).  The origin hashes the body it decrypted."""
+    import hashlib
+    import warnings
+
+    import urllib3
+
+    from vf import tlsnet
+
+    certs = tlsnet.Certs()
+    try:
+        n = 90000
+        raw = bytes((i * 7 + (i >> 8)) & 0xFF for i in range(n))
+        bodies: list[tuple[str, typing.Callable[[], typing.Any]]] = [
+            ("bytes", lambda: raw), ("bytearray", lambda: bytearray(raw)), ("memoryview", lambda: memoryview(raw)), ("array-H", lambda: array.array("H", raw)),
+            ("memoryview-I", lambda: memoryview(raw).cast("I")), ("bytesio", lambda: io.BytesIO(raw)), ("iter", lambda: iter([raw[:30000], raw[30000:]])),
+        ]
+        for route in ("direct", "http-tunnel", "https-tunnel"):
+            for kind, mk in bodies:
+                for chunked in (False, True):
+                    case = {"tls_upload": route, "kind": kind, "chunked": chunked, "size": n}
+                    rec.case(["tls-upload", route, kind, chunked])
+                    rec.mon("tls_upload")
+                    cfg = {"role": "origin", "tls": ("exact", "trusted")} if route == "direct" else {"role": "proxy", "tls": ("proxy", "trusted") if route == "https-tunnel" else None, "inner": ("exact", "trusted")}
+                    with tlsnet.TLSNet(lambda i: cfg, certs) as net, warnings.catch_warnings():
+                        warnings.simplefilter("ignore")
+                        try:
+                            if route == "direct":
+                                cl: typing.Any = urllib3.PoolManager(ca_certs=certs.ca_file, retries=False)
+                            else:
+                                cl = urllib3.ProxyManager(("https" if route == "https-tunnel" else "http") + "://proxy.test:3128", ca_certs=certs.ca_file, retries=False)
+                            r = cl.urlopen("POST", "https://good.test/upload", body=mk(), chunked=chunked)
+                            status = r.status
+                        except Exception as e:  # noqa: BLE001
+                            rec.fail(case, "upload-raised", {"exc": type(e).__name__, "route": route, "kind": kind}, f"{type(e).__name__}: {e!s:.120}")
+                            continue
+                        finally:
+                            for pl in list(getattr(cl, "pools", {})._container.values()) if "cl" in dir() else []:
+                                pl.close()
+                        net.wait_quiet(2.0)
+                        reqs = [q for e in net.listener.log for q in e.get("origin_requests", [])]
+                    if status != 200 or len(reqs) != 1 or "error" in reqs[0]:
+                        rec.fail(case, "request-not-parseable", {"route": route, "kind": kind, "status": status, "requests": len(reqs), "why": (reqs[0].get("error") if reqs else None)}, f"origin saw {len(reqs)} requests, status {status}")
+                        continue
+                    if reqs[0]["body_len"] != n or reqs[0]["body_sha256"] != hashlib.sha256(raw).hexdigest():
+                        rec.fail(case, "payload-differs", {"route": route, "kind": kind, "got_len": reqs[0]["body_len"], "want_len": n, "chunked": chunked}, f"the origin decrypted {reqs[0]['body_len']} body bytes (want {n}) or different content")
+    finally:
+        certs.close()
+
+
 def run_shard(ctx: Ctx, rec: Recorder) -> None:
+    if ctx.shard == ctx.nshards - 1:
+        run_tls_uploads(ctx, rec)
     tmpdir = tempfile.mkdtemp(prefix="vf-c11-")
     try:
         idx = 0
